@@ -61,6 +61,32 @@ def check(ctx):
     ctx.guard(_pickle, ctx)
 
 
+def lifecycle_of(ctx, classes, alias: dict):
+    """Run the per-class fit / predict life-cycle rules for `classes` under another property's rule ids.
+    alias maps R19.x -> the rule id to report under; rules not in the map are not evaluated into obligations."""
+    prog = ctx.prog
+    A = Analysis(ctx, max_depth=5)
+    ctx.rule_alias = dict(alias)
+    try:
+        for cls in classes:
+            params = set(prog.ctor_params(cls))
+            cfg = config_attrs(prog, A.ev, cls)
+            for m in FIT_METHODS:
+                fi = prog.lookup_method(cls, m)
+                if fi is None or fi.cls not in prog.classes:
+                    continue
+                r = A.run(fi.fq, cls_ctx=cls)
+                _fit_rules(ctx, A, cls, m, fi, r, params, cfg, True)
+            for m in PREDICT_METHODS:
+                fi = prog.lookup_method(cls, m)
+                if fi is None or fi.cls not in prog.classes:
+                    continue
+                r = A.run(fi.fq, cls_ctx=cls)
+                _predict_rules(ctx, A, cls, m, fi, r, True)
+    finally:
+        ctx.rule_alias = None
+
+
 def _note_or_ob(ctx, is_subject, rule, fq, node, ok, text, construct):
     if is_subject or ok:
         ctx.ob(rule, fq, node, ok, text, construct=construct)
